@@ -303,6 +303,40 @@ def _branch_matches_semantics(body: List[ast.stmt], lit: str, val_p: str, exp_p:
     return all(good(e) for e in rets)
 
 
+def _built_classes(repo, fi, lit: str) -> set:
+    """Filter-node classes the visitor method instantiates for operator token `lit`:
+    (a) `XFilterNode(...)` under a dominating `<tok> == lit`; (b) `cls = XFilterNode` under that fact, with
+    `cls(...)` called; (c) `TABLE[<tok>](...)` / `cls = TABLE.get(<tok>)` rows keyed by lit."""
+    built = set()
+    called_names = {c.func.id for c in calls(fi.node) if isinstance(c.func, ast.Name)}
+    for c in calls(fi.node):
+        nm = call_attr(c)
+        if nm and nm.endswith("FilterNode") and any(l == lit and h for _, l, h in _eq_literal_facts(c, fi.node)):
+            built.add(nm)
+        hit = resolve_dispatch(repo, fi, c)
+        if hit is not None:
+            for k, v in zip(hit[0].keys, hit[0].values):
+                if isinstance(k, ast.Constant) and k.value == lit:
+                    built.add(ap(v) or norm(v))
+    for st in stores(fi.node):
+        if st.kind == "assign" and isinstance(st.target, ast.Name) and st.path in called_names and \
+                isinstance(st.value, ast.Name) and st.value.id.endswith("FilterNode") and \
+                any(l == lit and h for _, l, h in _eq_literal_facts(st.node, fi.node)):
+            built.add(st.value.id)
+    return built
+
+
+def _repeats_flat(expr: ast.AST, rule_name: str, lst: ast.List) -> bool:
+    """The operator choice sits in a ZeroOrMore/OneOrMore group that does not recurse into the rule itself:
+    one parse node then carries a whole chain `x (op x)*` with several operator tokens."""
+    for n in ast.walk(expr):
+        if isinstance(n, ast.Call) and call_attr(n) in ("ZeroOrMore", "OneOrMore") and \
+                any(x is lst for a in n.args for x in ast.walk(a)):
+            recursive = any(isinstance(x, ast.Name) and x.id == rule_name for a in n.args for x in ast.walk(a))
+            return not recursive
+    return False
+
+
 def r2(ctx, rules):
     repo = ctx.repo
     ctx.rule("C18.R2", "operator tables agree: every comparison token of the grammar has a branch in _val_matches "
@@ -337,24 +371,34 @@ def r2(ctx, rules):
             ctx.ob("C18.R2", f"boolean token {lit!r} is a known connective", False, ctx.w(ef, elst),
                    "the grammar accepts a connective the checker has no meaning for")
             continue
-        built = set()
-        for c in calls(ve.node):
-            nm = call_attr(c)
-            if nm and nm.endswith("FilterNode") and any(l == lit and h for _, l, h in _eq_literal_facts(c, ve.node)):
-                built.add(nm)
+        built = _built_classes(repo, ve, lit)
         ctx.ob("C18.R2", f"boolean token {lit!r} builds {want}", built == {want}, ve.where,
                f"visit_expression builds {sorted(built) or 'nothing'} for this token")
     for lit, want in BOOL_TOKENS.items():
         ctx.ob("C18.R2", f"grammar has boolean token {lit!r}", lit in e_ops, ctx.w(ef, elst))
+    # a flat chain `term (op term)*` carries several operator tokens in one node: the visitor must look at each
+    if _repeats_flat(rules["expression"][1], "expression", elst):
+        toks = set(e_ops)
+        reads = []
+        for n in walk(ve.node):
+            if isinstance(n, ast.Compare) and any(isinstance(x, ast.Constant) and x.value in toks for x in ast.walk(n)):
+                reads.append(n)
+        for c in calls(ve.node):
+            hit = resolve_dispatch(repo, ve, c)
+            if hit is not None and any(isinstance(k, ast.Constant) and k.value in toks for k in hit[0].keys):
+                reads.append(hit[1])
+        per_occurrence = any(any(isinstance(a, (ast.For, ast.While, ast.comprehension, ast.GeneratorExp, ast.ListComp))
+                                 for a in ancestors(r)) or
+                             not all(isinstance(x.slice, ast.Constant) for x in ast.walk(r) if isinstance(x, ast.Subscript))
+                             for r in reads)
+        ctx.ob("C18.R2", "visit_expression decides the node class for every operator of a flat chain", per_occurrence,
+               ve.where, "the grammar yields `term (op term)*` in one node, but the visitor reads the operator at a fixed "
+                         "position only: the other operators of a mixed chain are ignored")
     uf, ulst = operator_choice(ctx, rules, "unary_expression")
     u_ops = [l for _, l in str_elts(ulst)]
     vu = repo.fn("MessageFilterVisitor.visit_unary_expression")
     ctx.ob("C18.R2", "unary prefix tokens are exactly '!'", u_ops == ["!"], ctx.w(uf, ulst), f"found {u_ops}")
-    built = set()
-    for c in calls(vu.node):
-        nm = call_attr(c)
-        if nm and nm.endswith("FilterNode") and any(l == "!" and h for _, l, h in _eq_literal_facts(c, vu.node)):
-            built.add(nm)
+    built = _built_classes(repo, vu, "!")
     ctx.ob("C18.R2", "unary token '!' builds UnaryNotFilterNode", built == {"UnaryNotFilterNode"}, vu.where,
            f"visit_unary_expression builds {sorted(built) or 'nothing'} for '!'")
 
@@ -377,6 +421,52 @@ class _Rec:
         return "MatchResult(" + ", ".join(f"{k}={v!r}" for k, v in self.fields.items()) + ")"
 
 
+
+class _Signal(Exception):
+    def __init__(self, kind):
+        self.kind = kind
+
+
+def _run(ev, stmts, env, depth=0):
+    """run_block + finite `for` loops over literal tuples/lists (unrolled), break/continue.
+    Returns miniinterp.Outcome (kinds: return / raise / fallthrough / break / continue)."""
+    from ..miniinterp import Outcome
+    for st in stmts:
+        if isinstance(st, ast.If):
+            t = ev.ev(st.test, env)
+            if isinstance(t, (Sym, CallVal)):
+                raise AnalysisError(f"interpreter: undecidable test `{src(st.test)}` (line {st.lineno})")
+            out = _run(ev, st.body if t else st.orelse, env, depth)
+            if out.kind != "fallthrough":
+                return out
+        elif isinstance(st, ast.For) and isinstance(st.target, ast.Name):
+            seq = ev.ev(st.iter, env)
+            if not isinstance(seq, (tuple, list)):
+                raise AnalysisError(f"interpreter: loop over a non-literal sequence `{src(st.iter)}`")
+            broke = False
+            for item in seq:
+                env[st.target.id] = item
+                out = _run(ev, st.body, env, depth)
+                if out.kind in ("return", "raise"):
+                    return out
+                if out.kind == "break":
+                    broke = True
+                    break
+            if not broke and st.orelse:
+                out = _run(ev, st.orelse, env, depth)
+                if out.kind != "fallthrough":
+                    return out
+        elif isinstance(st, ast.Break):
+            return Outcome("break")
+        elif isinstance(st, ast.Continue):
+            return Outcome("continue")
+        else:
+            out = run_block(ev, [st], env)
+            if out.kind != "fallthrough":
+                return out
+    return Outcome("fallthrough")
+
+
 class _FilterEval(ConstEval):
     """ConstEval + (a) construction / attribute access / truthiness of MatchResult,
     (b) `<child>.match(...)` answered from an enumerated table, (c) bool()/len()/list()."""
@@ -392,6 +482,41 @@ class _FilterEval(ConstEval):
         self.children = children
         self.called: List[str] = []
         self.attr_hook = self._hook
+        self.self_cls = None      # class whose method is being evaluated (for self.<helper>() inlining)
+        self._inline_depth = 0
+
+    def _inline(self, fn_info, call: ast.Call, local, skip_self: bool):
+        """Evaluate a call of a repo function by running its body on the evaluated arguments."""
+        if self._inline_depth > 6:
+            raise AnalysisError(f"interpreter: inlining too deep at `{src(call)}`")
+        a = fn_info.node.args
+        params = [x.arg for x in a.args]
+        if skip_self:
+            params = params[1:]
+        if a.vararg or a.kwarg or a.kwonlyargs:
+            raise AnalysisError(f"interpreter: unsupported signature of {fn_info.qual}")
+        env = {"self": Sym("self")} if skip_self else {}
+        defaults = dict(zip(reversed(params), reversed(a.defaults)))
+        for p_, d_ in defaults.items():
+            env[p_] = self.ev(d_, {})
+        if len(call.args) > len(params):
+            raise AnalysisError(f"interpreter: too many arguments in `{src(call)}`")
+        for p_, x in zip(params, call.args):
+            env[p_] = self.ev(x, local)
+        for k in call.keywords:
+            if k.arg not in params:
+                raise AnalysisError(f"interpreter: unknown keyword in `{src(call)}`")
+            env[k.arg] = self.ev(k.value, local)
+        if any(p_ not in env for p_ in params):
+            raise AnalysisError(f"interpreter: missing argument in `{src(call)}`")
+        self._inline_depth += 1
+        try:
+            out = _run(self, fn_info.node.body, env)
+        finally:
+            self._inline_depth -= 1
+        if out.kind == "raise":
+            raise _Signal("raise")
+        return out.value if out.kind == "return" else None
 
     def _hook(self, base, attr):
         if isinstance(base, _Rec) and attr in base.fields:
@@ -402,7 +527,7 @@ class _FilterEval(ConstEval):
         rec = _Rec(vals, True)
         if self.bool_fn is not None:
             rec.truth = True  # placeholder while evaluating
-            out = run_block(self, [s for s in self.bool_fn.node.body], {"self": rec})
+            out = _run(self, [s for s in self.bool_fn.node.body], {"self": rec})
             if out.kind != "return":
                 raise AnalysisError("MatchResult.__bool__ does not return")
             rec.truth = out.value
@@ -434,18 +559,32 @@ class _FilterEval(ConstEval):
                 if isinstance(v, (Sym, CallVal)):
                     return Sym(src(n))
                 return {"bool": bool, "len": len, "list": list, "tuple": tuple}[name](v)
+            if isinstance(f, ast.Attribute) and isinstance(f.value, ast.Name) and f.value.id == "self" and \
+                    self.self_cls is not None:
+                m = self.repo.lookup_method(self.self_cls, f.attr)
+                if m is not None:
+                    return self._inline(m, n, local, skip_self=True)
+            if isinstance(f, ast.Name) and f.id not in local:
+                cands = [g for g in self.repo.funcs.get(f.id, []) if g.module is self.mod and g.cls is None and g.parent_fn is None]
+                if len(cands) == 1:
+                    return self._inline(cands[0], n, local, skip_self=False)
         if isinstance(n, ast.Name) and n.id in local:
             return local[n.id]
         return super()._ev(n, local)
 
 
-def child_paths(fn_node) -> List[str]:
+def child_paths(repo, ci) -> List[str]:
+    """Child-node attributes of a filter node class: what its constructor(s) store on self from parameters."""
     out = []
-    for c in calls(fn_node):
-        if isinstance(c.func, ast.Attribute) and c.func.attr == "match":
-            p = ap(c.func.value)
-            if p and p.startswith("self.") and p not in out:
-                out.append(p)
+    for c in repo.mro(ci):
+        init = c.methods.get("__init__")
+        if init is None:
+            continue
+        params = {a.arg for a in init.node.args.args}
+        for st in stores(init.node):
+            if st.kind == "assign" and st.path.startswith("self.") and st.path.count(".") == 1 and \
+                    isinstance(st.value, ast.Name) and st.value.id in params and st.path not in out:
+                out.append(st.path)
     return out
 
 
@@ -467,8 +606,8 @@ def r3(ctx):
         params = [a.arg for a in m.node.args.args]
         ctx.require(len(params) == 3, f"{cname}.match signature changed (self, msg, short_circuit)")
         sc_name = params[2]
-        kids = child_paths(m.node)
-        ctx.require(len(kids) == arity, f"{cname}.match evaluates {len(kids)} distinct children, expected {arity}")
+        kids = child_paths(repo, ci)
+        ctx.require(len(kids) == arity, f"{cname} stores {len(kids)} child nodes ({kids}), expected {arity}")
         probe = _FilterEval(repo, mod, rec_cls, {})
         domain = [("F", lambda tag: probe.make({"result": False, "fields": []}), False),
                   ("T/nofields", lambda tag: probe.make({"result": True, "fields": []}), True),
@@ -482,11 +621,15 @@ def r3(ctx):
                 truth = [d[2] for d in combo]
                 want = bool(oracle(truth))
                 ev = _FilterEval(repo, mod, rec_cls, children)
-                env = {sc_name: sc, params[1]: Sym("ENTRY")}
+                ev.self_cls = ci
+                env = {sc_name: sc, params[1]: Sym("ENTRY"), "self": Sym("self")}
                 label = ",".join(f"{k.split('.', 1)[1]}={d[0]}" for k, d in zip(kids, combo))
                 key = f"{cname}.match[{label},{sc_name}={sc}] == {want}"
                 try:
-                    out = run_block(ev, m.node.body, env)
+                    out = _run(ev, m.node.body, env)
+                except _Signal:
+                    from ..miniinterp import Outcome
+                    out = Outcome("raise")
                 except AnalysisError as e:
                     raise AnalysisError(f"C18.R3 {cname}.match: {e}")
                 total += 1
@@ -549,7 +692,7 @@ def _guard_of(op, fn_node, cfg, needed: set) -> Optional[str]:
             if handled is not None:
                 break
         if handled is None:
-            return f"{exc} raised here propagates out of the filter evaluation"
+            return f"{exc} raised here (by the operation or by a value class's operator method) propagates out of the filter evaluation"
         if not _handler_returns_false(fn_node, cfg, handled):
             return f"the handler catching {exc} does not simply return False"
     return None
@@ -581,6 +724,67 @@ def type_dependent_ops(fn_node, val_p: str) -> List[Tuple[ast.AST, str]]:
     return out
 
 
+OP_DUNDERS = {ast.Lt: ("__lt__", "__gt__"), ast.Gt: ("__gt__", "__lt__"), ast.LtE: ("__le__", "__ge__"),
+              ast.GtE: ("__ge__", "__le__"), ast.Eq: ("__eq__",), ast.NotEq: ("__ne__", "__eq__"),
+              ast.In: ("__contains__", "__iter__"), ast.NotIn: ("__contains__", "__iter__"),
+              ast.BitAnd: ("__and__", "__rand__"), ast.BitOr: ("__or__", "__ror__")}
+
+
+def _explicit_raises(fn_node) -> set:
+    """Exception classes a function body raises by itself: `raise X(...)`, assert, zip(..., strict=True)."""
+    out = set()
+    for n in walk(fn_node):
+        if isinstance(n, ast.Raise) and n.exc is not None:
+            e = n.exc.func if isinstance(n.exc, ast.Call) else n.exc
+            out.add((ap(e) or "Exception").split(".")[-1])
+        elif isinstance(n, ast.Assert):
+            out.add("AssertionError")
+        elif isinstance(n, ast.Call) and ap(n.func) == "zip" and \
+                any(k.arg == "strict" and not (isinstance(k.value, ast.Constant) and not k.value.value) for k in n.keywords):
+            out.add("ValueError")
+    return out
+
+
+def value_class_raises(repo, f, val_p) -> Dict[str, Dict[str, set]]:
+    """dunder name -> {class: exception names}: what the rich-comparison / operator methods of the repo classes
+    that _val_matches admits as field values (its isinstance whitelist) raise explicitly."""
+    admitted = []
+    for c in calls(f.node):
+        if ap(c.func) == "isinstance" and len(c.args) == 2 and isinstance(c.args[0], ast.Name) and c.args[0].id == val_p:
+            elts = c.args[1].elts if isinstance(c.args[1], ast.Tuple) else [c.args[1]]
+            for e in elts:
+                ci = repo.resolve_class(ap(e) or "", f.module) if ap(e) else None
+                if ci is not None:
+                    for sub in repo.subclasses(ci):
+                        if sub not in admitted:
+                            admitted.append(sub)
+    out: Dict[str, Dict[str, set]] = {}
+    for ci in admitted:
+        for dn in {d for ds in OP_DUNDERS.values() for d in ds}:
+            m = repo.lookup_method(ci, dn)
+            if m is None:
+                continue
+            r = _explicit_raises(m.node)
+            if r:
+                out.setdefault(dn, {})[ci.name] = r
+    return out
+
+
+def _op_extra_raises(op, table) -> Tuple[set, List[str]]:
+    kinds = []
+    if isinstance(op, ast.Compare):
+        kinds = [type(o) for o in op.ops]
+    elif isinstance(op, ast.BinOp):
+        kinds = [type(op.op)]
+    extra, why = set(), []
+    for k in kinds:
+        for dn in OP_DUNDERS.get(k, ()):
+            for cname, excs in table.get(dn, {}).items():
+                extra |= excs
+                why.append(f"{cname}.{dn} raises {sorted(excs)}")
+    return extra, why
+
+
 def r4(ctx):
     repo = ctx.repo
     ctx.rule("C18.R4", "a comparison that cannot be applied to a field's type is False, not an error: every "
@@ -602,10 +806,19 @@ def r4(ctx):
             if _guard_of(c, gnode, CFG(gnode), needed) is not None:
                 return False
         return True
+    vc_raises = value_class_raises(repo, f, val_p)
+    # equality is only type-dependent when an admitted value class makes it so
+    listed = {id(o) for o, _ in ops}
+    for n in walk(f.node):
+        if isinstance(n, ast.Compare) and id(n) not in listed and _op_extra_raises(n, vc_raises)[0] and \
+                any(isinstance(x, ast.Name) and x.id == val_p for x in [n.left] + list(n.comparators)):
+            ops.append((n, norm(n)))
     for op, label in ops:
-        needed = _needed_exceptions(op)
+        needed = _needed_exceptions(op) | _op_extra_raises(op, vc_raises)[0]
         isinst = any(pol and isinstance(e, ast.Call) and ap(e.func) == "isinstance" and e.args and
                      isinstance(e.args[0], ast.Name) and e.args[0].id == val_p for e, pol in facts(op, f.node))
+        if _op_extra_raises(op, vc_raises)[0]:
+            isinst = False
         why = None if isinst else _guard_of(op, f.node, cfg, needed)
         ok = why is None
         if not ok and sites_guarded(needed):
@@ -620,8 +833,13 @@ def r4(ctx):
                 continue
             scope = br.host.node if br.host is not None else ast.Module(body=br.body, type_ignores=[])
             hcfg = CFG(br.host.node) if br.host is not None else None
-            for op, label in type_dependent_ops(scope, br.val):
-                needed = _needed_exceptions(op)
+            row_ops = type_dependent_ops(scope, br.val)
+            for n in walk(scope):
+                if isinstance(n, ast.Compare) and not any(n is o for o, _ in row_ops) and _op_extra_raises(n, vc_raises)[0] and \
+                        any(isinstance(x, ast.Name) and x.id == br.val for x in [n.left] + list(n.comparators)):
+                    row_ops.append((n, norm(n)))
+            for op, label in row_ops:
+                needed = _needed_exceptions(op) | _op_extra_raises(op, vc_raises)[0]
                 why = "unguarded"
                 if br.host is not None:
                     isinst = any(pol and isinstance(e, ast.Call) and ap(e.func) == "isinstance" and e.args and
@@ -803,7 +1021,7 @@ def r4_result_is_bool(ctx):
                 if arg is None:
                     raise AnalysisError(f"MatchResult construction without a result: {norm(c)}")
                 sites.append((g, c, arg))
-    ctx.floor("C18.R4", "MatchResult construction sites", len(sites), 12)
+    ctx.floor("C18.R4", "MatchResult construction sites", len(sites), 6)
     bad: Dict[str, Tuple[Any, ast.AST, List[str]]] = {}
     for g, c, arg in sites:
         kind, culprits = _boolish(repo, g, arg, 0, c)
@@ -819,6 +1037,161 @@ def r4_result_is_bool(ctx):
         ctx.ob("C18.R4", key, False, ctx.w(cf, ce),
                f"reaches MatchResult.result in {sorted(set(users))}; MatchResult.__bool__ returns it unchanged and "
                f"python raises TypeError('__bool__ should return bool') when the filter result is tested")
+
+
+
+# --------------------------------------------------------------------------- helper inlining
+
+def _clone(n):
+    if isinstance(n, ast.AST):
+        new = n.__class__()
+        for f_, v in ast.iter_fields(n):
+            setattr(new, f_, _clone(v))
+        for a in ("lineno", "col_offset", "end_lineno", "end_col_offset"):
+            if hasattr(n, a):
+                setattr(new, a, getattr(n, a))
+        return new
+    if isinstance(n, list):
+        return [_clone(x) for x in n]
+    return n
+
+
+class _Subst(ast.NodeTransformer):
+    def __init__(self, mapping, renames):
+        self.mapping, self.renames = mapping, renames
+
+    def visit_Name(self, node):
+        if node.id in self.mapping and isinstance(node.ctx, ast.Load):
+            new = _clone(self.mapping[node.id])
+            return ast.copy_location(new, node)
+        if node.id in self.renames:
+            node.id = self.renames[node.id]
+        return node
+
+
+def _helper_body(m) -> List[ast.stmt]:
+    body = list(m.node.body)
+    if body and isinstance(body[0], ast.Expr) and isinstance(body[0].value, ast.Constant) and isinstance(body[0].value.value, str):
+        body = body[1:]
+    return body
+
+
+def _inlinable(repo, fi, call) -> Optional[Tuple[Any, Dict[str, ast.AST]]]:
+    f = call.func
+    if not (isinstance(f, ast.Attribute) and isinstance(f.value, ast.Name) and f.value.id == "self" and fi.cls is not None):
+        return None
+    m = repo.lookup_method(fi.cls, f.attr)
+    if m is None or m.module is not fi.module or m.node is fi.node or m.node.decorator_list or \
+            not isinstance(m.node, ast.FunctionDef):
+        return None
+    a = m.node.args
+    if a.vararg or a.kwarg or a.kwonlyargs or any(isinstance(x, (ast.Yield, ast.YieldFrom, ast.Await)) for x in walk(m.node)):
+        return None
+    params = [x.arg for x in a.args][1:]
+    mapping: Dict[str, ast.AST] = {}
+    defaults = dict(zip(reversed(params), reversed(a.defaults)))
+    mapping.update(defaults)
+    if len(call.args) > len(params):
+        return None
+    for p_, x in zip(params, call.args):
+        mapping[p_] = x
+    for k in call.keywords:
+        if k.arg not in params:
+            return None
+        mapping[k.arg] = k.value
+    if any(p_ not in mapping for p_ in params):
+        return None
+    for x in mapping.values():
+        if not (isinstance(x, (ast.Name, ast.Constant)) or ap(x)):
+            return None
+    # the helper must not rebind its parameters
+    for st in stores(m.node):
+        if st.path in params and st.kind in ("assign", "augassign", "del"):
+            return None
+    return m, mapping
+
+
+def inline_self_calls(repo, fi, depth=3):
+    """FuncInfo whose body has calls of same-class helper methods replaced by the helpers' bodies
+    (statement calls of helpers without a value-return; expression calls of single-`return <expr>` helpers)."""
+    from ..core import FuncInfo, set_parents
+    node = _clone(fi.node)
+    for _ in range(depth):
+        set_parents(node)
+        changed = False
+        caller_names = {n.id for n in ast.walk(node) if isinstance(n, ast.Name)} | {a.arg for a in node.args.args}
+        # expression-level
+        for c in [n for n in ast.walk(node) if isinstance(n, ast.Call)]:
+            hit = _inlinable(repo, fi, c)
+            if hit is None:
+                continue
+            m, mapping = hit
+            body = _helper_body(m)
+            if len(body) == 1 and isinstance(body[0], ast.Return) and body[0].value is not None:
+                expr = _Subst(mapping, {}).visit(_clone(body[0].value))
+                par = getattr(c, "_parent", None)
+                for f_, v in ast.iter_fields(par):
+                    if v is c:
+                        setattr(par, f_, expr)
+                        changed = True
+                    elif isinstance(v, list):
+                        for i, x in enumerate(v):
+                            if x is c:
+                                v[i] = expr
+                                changed = True
+        if changed:
+            continue
+        # statement-level
+        for st in [n for n in ast.walk(node) if isinstance(n, ast.Expr) and isinstance(n.value, ast.Call)]:
+            hit = _inlinable(repo, fi, st.value)
+            if hit is None:
+                continue
+            m, mapping = hit
+            body = _helper_body(m)
+            rets = [r for r in walk(m.node) if isinstance(r, ast.Return)]
+            if any(r.value is not None and not (isinstance(r.value, ast.Constant) and r.value.value is None) for r in rets):
+                continue
+            if rets and not (len(rets) == 1 and body and rets[0] is body[-1]):
+                continue
+            if rets:
+                body = body[:-1]
+            locals_ = {s_.path for s_ in stores(m.node) if isinstance(s_.target, ast.Name)}
+            renames = {n_: f"{n_}__{m.name}" for n_ in locals_ if n_ in caller_names}
+            new_body = [_Subst(mapping, renames).visit(_clone(x)) for x in body] or [ast.copy_location(ast.Pass(), st)]
+            par = getattr(st, "_parent", None)
+            for f_, v in ast.iter_fields(par):
+                if isinstance(v, list) and any(x is st for x in v):
+                    i = next(i for i, x in enumerate(v) if x is st)
+                    v[i:i + 1] = new_body
+                    changed = True
+            if changed:
+                break
+        if not changed:
+            break
+    ast.fix_missing_locations(node)
+    set_parents(node)
+    return FuncInfo(fi.name, fi.qual, fi.module, node, fi.cls, fi.parent_fn)
+
+
+def _owned(repo, g, owners: set, seen=()) -> bool:
+    """g is an owner, or a same-class helper reached only through `self.<g>()` calls from owners/owned helpers."""
+    g = top_fn(g)
+    if g.qual in owners:
+        return True
+    if g.cls is None or g in seen:
+        return False
+    callers = callers_of(repo, g.name)
+    if not callers:
+        return False
+    for h, c in callers:
+        if not (isinstance(c.func, ast.Attribute) and isinstance(c.func.value, ast.Name) and c.func.value.id == "self"):
+            return False
+        h = top_fn(h)
+        if h.cls is None or not any(x == g.cls or x == h.cls for x in repo.mro(h.cls) + repo.mro(g.cls)):
+            return False
+        if not _owned(repo, h, owners, tuple(seen) + (g,)):
+            return False
+    return True
 
 
 # --------------------------------------------------------------------------- R5 view ownership
@@ -856,7 +1229,14 @@ def _comp_checked(comp, fn_node) -> Tuple[bool, Optional[str], bool]:
                 ap(e.comparators[0]) == "self._raw_entries":
             if (isinstance(e.ops[0], ast.NotIn) and pol) or (isinstance(e.ops[0], ast.In) and not pol):
                 excl = True
-    return matched, ap(g.iter), excl
+    source = ap(g.iter)
+    # a local bound once to another filtering generator over the buffers: compose the two
+    if isinstance(g.iter, ast.Name):
+        vals = [x.value for x in stores(fn_node) if x.path == g.iter.id and x.kind == "assign" and x.value is not None]
+        if len(vals) == 1 and isinstance(vals[0], (ast.GeneratorExp, ast.ListComp)):
+            m2, s2, e2 = _comp_checked(vals[0], fn_node)
+            matched, excl, source = matched or m2, excl or e2, s2
+    return matched, source, excl
 
 
 def r5(ctx):
@@ -870,10 +1250,10 @@ def r5(ctx):
         for g, st in ws:
             q = top_fn(g).qual
             ctx.ob("C18.R5", f"{field} written in {q}: {st.kind}{('.' + st.method) if st.method else ''}",
-                   q in owners and st.path == f"self.{field}", ctx.w(g, st.node),
+                   _owned(repo, g, owners) and st.path == f"self.{field}", ctx.w(g, st.node),
                    "the view/raw buffer is mutated outside its owner functions")
     # ---- add_log_entry
-    f = repo.fn("FilteringMessageLogger.add_log_entry")
+    f = inline_self_calls(repo, repo.fn("FilteringMessageLogger.add_log_entry"))
     params = [a.arg for a in f.node.args.args]
     ctx.require(len(params) == 2, "add_log_entry signature changed (self, entry)")
     entry = params[1]
@@ -906,7 +1286,7 @@ def r5(ctx):
                bool(vn) and bool(rn) and not any(n in reach for n in vn), ctx.w(f, s.node),
                "a shown entry might not be retained (re-filtering would lose it)")
     # ---- set_filter
-    sf = repo.fn("FilteringMessageLogger.set_filter")
+    sf = inline_self_calls(repo, repo.fn("FilteringMessageLogger.set_filter"))
     scfg = CFG(sf.node)
     fstores = [s for s in stores(sf.node) if s.path == "self.filter" and s.kind == "assign"]
     ctx.ob("C18.R5", "set_filter installs the new filter", len(fstores) >= 1, sf.where)
@@ -966,7 +1346,7 @@ def r5(ctx):
     ctx.ob("C18.R5", "set_filter: retained entries (_raw_entries) matching the filter enter the view in order", from_raw,
            sf.where)
     # ---- clear
-    cf = repo.fn("FilteringMessageLogger.clear")
+    cf = inline_self_calls(repo, repo.fn("FilteringMessageLogger.clear"))
     for field in VIEW_OWNERS:
         emptied = any(s.path == f"self.{field}" and ((s.kind == "mutcall" and s.method == "clear") or
                                                       (s.kind == "assign" and s.value is not None and
